@@ -99,6 +99,8 @@ type valPayload struct {
 	Dec2OK   bool   `json:"dec2ok"`
 	Dec2Pos  int    `json:"dec2consumed"`
 	Dec2Re   []int  `json:"dec2re"`
+	Dec2Val  bool   `json:"dec2valid"`
+	Dec2TL1  []int  `json:"dec2tl1"`
 	Writable bool   `json:"writable"`
 	Req      []int  `json:"req"`
 	Res1     []int  `json:"res1"`
@@ -144,10 +146,11 @@ func eqInts(a, b []int) bool {
 func runTL1(c *core.Ctx, prop string) error {
 	corpora := corporaFor(c)
 	k, kmut, kjson, kre := c.Pick(2, 3), 0, 0, 0
+	kmut2, kfn := 0, 0
 	if prop == "C13" {
 		k, kre = c.Pick(2, 3), c.Pick(3, 4)
+		kmut2 = c.Pick(2, 2) // byte mutations of TL2 encodings, judged by the tolerant reference reader Dec2
 	}
-	kmut2, kfn := 0, 0
 	if prop == "C08" {
 		k, kmut, kmut2 = 1, 2, 2
 	}
@@ -331,16 +334,22 @@ func runCorpusTL1(c *core.Ctx, prop string, cp Corpus, k, kmut, kjson, kre, kmut
 				bad = fmt.Sprintf("reference rejects, implementation accepts (consumed %d, rewrites %s)", s.Consumed, hexs(s.Dump.TL2))
 			case p.Dec2OK && s.Consumed != p.Dec2Pos:
 				bad = fmt.Sprintf("consumed %d, reference %d", s.Consumed, p.Dec2Pos)
-			case p.Dec2OK && s.Dump != nil && !eqInts(s.Dump.TL2, p.Dec2Re):
+			case p.Dec2OK && p.Dec2Val && s.Dump != nil && p.Orig2 && !eqInts(s.Dump.TL2, p.Dec2Re):
 				bad = fmt.Sprintf("decoded value re-encodes to %s, reference %s", hexs(s.Dump.TL2), hexs(p.Dec2Re))
+			case p.Dec2OK && p.Dec2Val && s.Dump != nil && !p.Orig2 && (s.Dump.TL1Err != "" || !eqInts(s.Dump.TL1, p.Dec2TL1)):
+				bad = fmt.Sprintf("decoded value is written in TL1 as %s %s, reference %s", hexs(s.Dump.TL1), s.Dump.TL1Err, hexs(p.Dec2TL1))
 			}
 			if s.Err == "" {
 				acc++
 			} else {
 				rej++
 			}
-			if bad != "" && classOf[prop]["tl2"] {
-				c.Violate(fmt.Sprintf("tl2-bytes/%s/%s/read2/%s", cp.Name, p.Tn, hexs(p.B)), fmt.Sprintf("type %s, read2 of %s: %s", p.Tn, hexs(p.B), bad), map[string]any{"corpus": cp, "payload": p})
+			if bad != "" && (prop == "C11" || prop == "C13") {
+				key := fmt.Sprintf("tl2-bytes/%s/%s/read2/%s", cp.Name, p.Tn, hexs(p.B))
+				if p.NegZ {
+					key = fmt.Sprintf("tl2/%s/%s/negative-zero-float", cp.Name, p.Tn)
+				}
+				c.Violate(key, fmt.Sprintf("type %s, read2 of %s: %s", p.Tn, hexs(p.B), bad), map[string]any{"corpus": cp, "payload": p})
 			}
 			return
 		}
